@@ -721,6 +721,10 @@ func writeEvidence(v *Verifier, prop, tier string, seed int, jobs []*fnJob, tota
 		"go/packages + go/ssa (x/tools v0.29.0) build the SSA from /repo's working tree",
 		"library contracts in /verif/specs/lib.spec (every entry used is listed under coverage.lib_contracts_used)",
 		"Go type system facts: values of sealed interface types (go/ast, go/types) hold one of their implementers",
+		"machine integers are treated as mathematical integers (no overflow reasoning); strings are uninterpreted identifiers with length, concatenation and substring functions",
+		"partial correctness only: termination of loops and recursion is not proved",
+		"callback schemas of library functions (typeutil.Map.Iterate visits every key; astutil.Apply calls post bottom-up once per node; ast.Inspect descends while the callback returns true); preconditions of callbacks that mention their parameters are assumed as such schema facts",
+		"global disciplines checked where values are created and assumed where they are read: no typed nil in interfaces, no nil element in slices of pointers, field invariants (listed under assumptions when used)",
 	}
 	ev := map[string]interface{}{
 		"property_id": prop,
